@@ -177,6 +177,27 @@ def read_facts():
     return out
 
 
+def amplify(ctx, binp, shards):
+    """four more quick-sized case sets (other seeds), observables only"""
+    extra = 0
+    for k in range(1, 5):
+        sub = checklib.Ctx("C02", "quick", ctx.seed + 7919 * k)
+        try:
+            c2, g2, _, _ = checklib.run_cases(sub, binp, "C02", shards=shards, budget_s=900)
+            m2 = checklib.run_driver(sub, "C02", c2, shards=shards)
+            extra += len(c2)
+            for i in sorted(c2):
+                g = g2.get(i, "MISSING-RESULT").split(" ~ ")[0]
+                if g != m2.get(i, ("MISSING", {}))[0]:
+                    rp = checklib.write_replay(ctx, "input", {"payload": c2[i], "readable": decode(c2[i])},
+                                               m2.get(i, ("MISSING", {}))[0], g, "./check C02 --replay <this file>", tag="amp")
+                    checklib.violation(ctx, rp, f"(amplified search) go={g[:100]!r}")
+                    return
+        finally:
+            sub.cleanup()
+    ctx.coverage["amplified_search_cases"] = extra
+
+
 def run(ctx):
     thorough = ctx.tier == "thorough"
     ctx.log("go: building harness against", checklib.REPO)
@@ -199,6 +220,8 @@ def run(ctx):
     if proof_broken:
         ctx.log("LEAN FAILURES:", lres["failures"])
     cov["source_facts"] = read_facts()
+    not_established = sorted(k for k, v in cov["source_facts"].items() if v == "none")
+    cov["source_facts_not_established"] = not_established
     cov["limitation_probes"] = probes(ctx, binp)
     shards = SPEC["shards"]
     cases, gores, stats, infos = checklib.run_cases(ctx, binp, "C02", shards=shards, budget_s=3000 if thorough else 600)
@@ -247,6 +270,11 @@ def run(ctx):
     if thorough:
         race_run(ctx, shards)
 
+    if not_established:
+        # a fact the extractor can no longer establish is NOT a violation: evidence note + amplified search
+        ctx.notes.append("source facts not established for this tree (extractor cannot follow the code): " + ", ".join(not_established)
+                         + " — search amplified with 4 more case sets")
+        amplify(ctx, binp, shards)
     model = checklib.run_driver(ctx, "C02", cases, shards=shards)
     canon, traces = {}, {}
     for i, g in gores.items():
@@ -360,7 +388,7 @@ def run(ctx):
         # a source fact / theorem does not hold for this tree: reported on its own (deterministic), the
         # failing inputs found by the schedules above (if any) are the VIOLATION lines before this one
         facts = read_facts()
-        broken = {k: v for k, v in facts.items() if v in ("some false", "none")}
+        broken = {k: v for k, v in facts.items() if v == "some false"}
         rp = checklib.write_replay(ctx, "obligation", {"failures": lres["failures"], "source_facts_not_true": broken,
                                                       "theorems": lres["theorems"]},
                                    "all property theorems and source facts check with allowed axioms", "see failures",
